@@ -21,11 +21,29 @@ func Transpile(elkRegex string, flags bitfield.BitField8) (string, diagnostic.Di
 	}
 
 	t := &transpiler{Flags: flags}
+	t.topLevelFlags()
 	t.transpileNode(ast)
 	if t.Errors != nil {
 		return "", t.Errors
 	}
 	return t.Buffer.String(), nil
+}
+
+// Write the flags of the whole regex that Go understands (i, m, s, U)
+// as a leading `(?flags)`; x and a are handled by the transpiler itself.
+func (t *transpiler) topLevelFlags() {
+	var visible strings.Builder
+	for _, fl := range flag.Flags {
+		if t.Flags.HasFlag(fl) && flag.IsSupportedByGo(fl) {
+			visible.WriteRune(flag.ToChar(fl))
+		}
+	}
+	if visible.Len() == 0 {
+		return
+	}
+	t.Buffer.WriteString(`(?`)
+	t.Buffer.WriteString(visible.String())
+	t.Buffer.WriteRune(')')
 }
 
 // Transpiler mode
